@@ -156,6 +156,8 @@ def feed_real(conn, chunk: bytes, budget: int = 40000, alarm_s: float = 2.0):
         return "ok"
     except Livelock:
         return "spin"
+    except Exception as e:  # noqa        (an exception leaving work_read_queue ends the reader thread)
+        return "died:" + type(e).__name__
     finally:
         signal.setitimer(signal.ITIMER_REAL, 0)
         signal.signal(signal.SIGALRM, old)
@@ -165,10 +167,14 @@ def frame_real(chunks: list[bytes], alarm_s: float = 2.0) -> str:
     from diameter.node import peer as peer_mod
     conn, delivered = new_reader()
     spin = False
+    died = ""
     for c in chunks:
         r = feed_real(conn, c, alarm_s=alarm_s)
         if r == "spin":
             spin = True
+            break
+        if r.startswith("died:"):
+            died = r[5:]
             break
         if conn.state == peer_mod.PEER_CLOSED:
             break
@@ -178,4 +184,4 @@ def frame_real(chunks: list[bytes], alarm_s: float = 2.0) -> str:
     if spin and alarm_s < 10:
         # a reader that did not return within the alarm is tried again from scratch with a five times longer one
         return frame_real(chunks, alarm_s=10.0)
-    return f"D[{dl}] closed={closed} spin={1 if spin else 0} resid={len(conn._read_buffer)}"
+    return f"D[{dl}] closed={closed} spin={1 if spin else 0} resid={len(conn._read_buffer)}" + (f" died={died}" if died else "")
